@@ -37,7 +37,7 @@ EXTENDS Naturals, Sequences, FiniteSets, TLC
 
 CONSTANTS Conns, MaxEnv, Urgent, Guard, SS, Pushes
 
-Shutdown == 3001   ForceNoRec == 3503   ConnClosed == 3000
+Shutdown == 3001   ForceNoRec == 3503   ConnClosed == 3000   BadRequest == 3501
 
 VARIABLES
   st,      \* "absent" | "connecting" | "connected" | "closed"
@@ -79,6 +79,13 @@ ConnectMuFree(c)  == rd[c] # "cn" /\ cl[c] \notin {"tc", "pm"}
 MaySpawn(c) == Urgent => (rd[c] = "cn" => spawned[c] = <<>>)
 PresenceMuFree(c) == tk[c] # "al"
 Env == nenv < MaxEnv /\ nenv' = nenv + 1
+
+\* the callbacks at the end of close()
+CloseCallbacks(c, k) ==
+  LET k1 == IF sub[c] = "live" /\ \E i \in 1..Len(k[c]) : k[c][i] = "connect" THEN Append(k[c], "unsubscribe") ELSE k[c]
+      k2 == IF prev[c] = "connected" THEN Append(k1, "disconnect") ELSE k1
+  IN Upd(k, c, k2)
+
 
 (* a transport handler creates the client *)
 NewConn(c) ==
@@ -125,8 +132,13 @@ ConnAuth(c) ==
 ConnReply(c) ==
   /\ rd[c] = "ss"
   /\ step' = [act |-> "ConnReply", c |-> c]
-  /\ ReplyAndTrigger(c, out, cb)
-  /\ UNCHANGED <<st, auth, hub, tk, armed, spawned, cl, who, prev, shc, shut, cbdone, pushed, nenv>>
+  /\ IF cl[c] = "pm" /\ PresenceMuFree(c)
+       THEN \* closed during connect, and the close() was waiting for this subscribe: it finishes now
+            /\ rd' = Upd(rd, c, "done") /\ UNCHANGED <<out, sub>>
+            /\ cb' = CloseCallbacks(c, cb) /\ cl' = Upd(cl, c, "done")
+            /\ shc' = IF who[c] = Shutdown /\ shc[c] = "spawned" THEN Upd(shc, c, "done") ELSE shc
+       ELSE ReplyAndTrigger(c, out, cb) /\ UNCHANGED <<cl, shc>>
+  /\ UNCHANGED <<st, auth, hub, tk, armed, spawned, who, prev, shut, cbdone, pushed, nenv>>
 
 ConnDone(c) ==
   /\ rd[c] = "cn"
@@ -152,6 +164,13 @@ Unsubscribe(c) ==
   /\ step' = [act |-> "Unsubscribe", c |-> c]
   /\ UNCHANGED <<st, auth, hub, rd, tk, armed, spawned, cl, who, prev, shc, shut, cbdone, pushed>>
 
+\* a second connect command on an authenticated connection: bad request, no callback
+DupConnect(c) ==
+  /\ Env /\ rd[c] = "up" /\ st[c] = "connected" /\ MaySpawn(c)
+  /\ spawned' = Upd(spawned, c, Append(spawned[c], BadRequest))
+  /\ step' = [act |-> "DupConnect", c |-> c]
+  /\ UNCHANGED <<st, auth, hub, rd, tk, armed, sub, cl, who, prev, shc, shut, cbdone, pushed, out, cb>>
+
 (* ---- presence tick ---- *)
 TickBegin(c) ==
   /\ Env /\ armed[c] /\ tk[c] = "idle" /\ st[c] = "connected"
@@ -160,17 +179,13 @@ TickBegin(c) ==
   /\ step' = [act |-> "TickBegin", c |-> c]
   /\ UNCHANGED <<st, auth, hub, rd, armed, sub, spawned, cl, who, prev, shc, shut, cbdone, pushed, out>>
 
-\* the callbacks at the end of close()
-CloseCallbacks(c, k) ==
-  LET k1 == IF sub[c] = "live" /\ \E i \in 1..Len(k[c]) : k[c][i] = "connect" THEN Append(k[c], "unsubscribe") ELSE k[c]
-      k2 == IF prev[c] = "connected" THEN Append(k1, "disconnect") ELSE k1
-  IN Upd(k, c, k2)
-
+\* close() runs its callbacks once it has presenceMu (no tick inside OnAlive) and its unsubscribe loop does not
+\* have to wait for the connect-time server-side subscription that is still in flight (reader parked in "ss")
 TickEnd(c) ==
   /\ tk[c] = "al"
   /\ tk' = Upd(tk, c, "idle")
   /\ step' = [act |-> "TickEnd", c |-> c]
-  /\ IF cl[c] = "pm"
+  /\ IF cl[c] = "pm" /\ rd[c] # "ss"
        THEN \* a close() was waiting for presenceMu: it finishes now
             /\ cb' = CloseCallbacks(c, cb) /\ sub' = Upd(sub, c, "none") /\ cl' = Upd(cl, c, "done")
             /\ shc' = IF who[c] = Shutdown /\ shc[c] = "spawned" THEN Upd(shc, c, "done") ELSE shc
@@ -213,7 +228,7 @@ CloseXmit(c) ==
   /\ cl[c] = "tc"
   /\ out' = Upd(out, c, Append(out[c], F("disc", who[c])))
   /\ step' = [act |-> "CloseXmit", c |-> c]
-  /\ IF PresenceMuFree(c)
+  /\ IF PresenceMuFree(c) /\ rd[c] # "ss"
        THEN /\ cb' = CloseCallbacks(c, cb) /\ sub' = Upd(sub, c, "none") /\ cl' = Upd(cl, c, "done")
             /\ shc' = IF who[c] = Shutdown /\ shc[c] = "spawned" THEN Upd(shc, c, "done") ELSE shc
        ELSE cl' = Upd(cl, c, "pm") /\ UNCHANGED <<cb, sub, shc>>
@@ -248,7 +263,7 @@ Next ==
   IF Urgent /\ \E c \in Conns : CloseStartEnabled(c)
     THEN \E c \in Conns : CloseStart(c)
     ELSE \/ \E c \in Conns : NewConn(c) \/ ConnBegin(c) \/ ConnAuth(c) \/ ConnReply(c) \/ ConnDone(c)
-                             \/ Subscribe(c) \/ Unsubscribe(c) \/ TickBegin(c) \/ TickEnd(c)
+                             \/ Subscribe(c) \/ Unsubscribe(c) \/ DupConnect(c) \/ TickBegin(c) \/ TickEnd(c)
                              \/ Disconnect(c) \/ TransportClose(c) \/ CloseStart(c) \/ CloseXmit(c) \/ Push(c)
          \/ ShutBegin \/ ShutDone
 
